@@ -7,6 +7,7 @@ import Driver.C06
 import Driver.C09
 import Driver.C10
 import Driver.C12
+import Driver.C13
 import Driver.C15
 import Driver.C16
 import Driver.C17
@@ -53,6 +54,7 @@ def main (args : List String) : IO UInt32 := do
   | ["C10"] => loopSt stdin stdout C10.step {}; return 0
   | ["C15"] => loopSt stdin stdout C15.step {}; return 0
   | ["C12"] => loop stdin stdout C12.step; return 0
+  | ["C13"] => loopSt stdin stdout C13.step {}; return 0
   | ["C16"] => loop stdin stdout C16.step; return 0
   | ["C17"] => loop stdin stdout C17.step; return 0
   | ["C19"] => loopSt stdin stdout C19.step {}; return 0
